@@ -190,7 +190,7 @@ CHECK_DEADLOCK FALSE
 
 
 CFG_EXTRA = {
-    "TraceRW": 'CONSTANTS\n  Backend = "badger"\n  MetaAlways = TRUE\n  PointMeta = TRUE\n  Gs = {1}\n  IdSet = {1, 2}\n  Vals = {1, 2}\n',
+    "TraceRW": 'CONSTANTS\n  Backend = "badger"\n  MetaAlways = TRUE\n  PointMeta = TRUE\n  Gs = {1}\n  IdSet = {1, 2}\n  Vals = {1, 2}\n  WithReads = FALSE\n',
 }
 
 
@@ -322,7 +322,7 @@ def report(ctx, info, stage, module, invariants, explain_it=True):
             print(msg, flush=True)
             ctx.known_printed.append(msg)
         return
-    rdir = os.path.join(ctx.root, "replays", ctx.prop)
+    rdir = os.path.join(os.environ.get("VERIF_REPLAY_DIR") or os.path.join(ctx.root, "replays"), ctx.prop)
     os.makedirs(rdir, exist_ok=True)
     path = os.path.join(rdir, "%s-%s-seed%d-%d.json" % (stage.get("name", "stage"), info["invariant"], ctx.seed,
                                                         len(ctx.violations)))
@@ -514,6 +514,40 @@ def emission(ctx, st):
     return states, events
 
 
+def conc_emission(ctx, st):
+    """Terminal states of CloverConc (MC_ConcEmit): cached like the L1 emission."""
+    cfgname = st["cfg"]
+    key = spec_hash(ctx, st["module"], cfgname)
+    cdir = os.path.join(ctx.root, ".cache")
+    cpath = os.path.join(cdir, "concemit-%s-%s.json" % (cfgname.replace(".cfg", ""), key))
+    if os.path.exists(cpath) and not os.environ.get("VERIF_NOCACHE"):
+        with open(cpath) as f:
+            c = json.load(f)
+        ctx.mc_runs.append({"config": cfgname, "module": st["module"], "states": c["distinct"], "transitions": c["generated"],
+                            "ok": True, "cached": True, "wall_s": c["wall_s"],
+                            "note": "model run cached (it depends on spec/ only); counts are those of the cached run"})
+        ctx.states += c["distinct"]
+        ctx.transitions += c["generated"]
+        ctx.log("MC %s/%s: %d distinct states, %d generated (cached model run)" % (st["module"], cfgname, c["distinct"], c["generated"]))
+        return c["records"]
+    r = stage_mc(ctx, dict(st, kind="mc", nocache=True))
+    recs = []
+    for line in r["out"].splitlines():
+        if line.startswith('"CONC '):
+            try:
+                recs.append(json.loads(json.loads(line)[5:]))
+            except ValueError:
+                continue
+    if not recs:
+        raise Inconclusive("MC_ConcEmit emitted no behaviours")
+    os.makedirs(cdir, exist_ok=True)
+    tmp = cpath + ".tmp%d" % os.getpid()
+    with open(tmp, "w") as f:
+        json.dump({"records": recs, "distinct": r["distinct"], "generated": r["generated"], "wall_s": round(r["wall"], 1)}, f)
+    os.replace(tmp, cpath)
+    return recs
+
+
 def stage_edges(ctx, st):
     """Direction A (DESIGN.md 5.3): TLC enumerates the reachable graph of the abstract database in a
     small scope; its edges (distinct states x operation instances) are executed on the real code
@@ -687,7 +721,7 @@ def stage_aux(ctx, st):
                 print(msg, flush=True)
                 ctx.known_printed.append(msg)
             continue
-        rdir = os.path.join(ctx.root, "replays", ctx.prop)
+        rdir = os.path.join(os.environ.get("VERIF_REPLAY_DIR") or os.path.join(ctx.root, "replays"), ctx.prop)
         os.makedirs(rdir, exist_ok=True)
         path = os.path.join(rdir, "%s-seed%d-%d.json" % (st["name"], ctx.seed, len(ctx.violations)))
         ev = json.loads(line)
@@ -736,12 +770,52 @@ def stage_lin(ctx, st):
             "-backends", st.get("backends", "rotate"), "-maxg", str(st.get("maxg", 4)), "-ops", str(st.get("ops", 3)), "-par", "4"]
     if st.get("gated"):
         args.append("-gated")
+    if st.get("sched"):
+        # behaviours of CloverConc generated by TLC (cached: they depend on spec/ only), replayed
+        # on the real code with gates at the store's Begin and Commit / Rollback
+        recs = []
+        for cfg in st["sched"]:
+            recs += conc_emission(ctx, {"module": "MC_ConcEmit", "cfg": cfg, "workers": 8, "heap": "8g", "name": "conc-emit"})
+        import random
+        rng = random.Random(ctx.seed * 104729 + st.get("seed_off", 0))
+        def forceable(r):
+            # bbolt: a writer whose commit has to remap the data file waits for the read transactions
+            # that are open; a schedule that keeps an older reader open across a writer's whole
+            # transaction cannot be forced with gates (it is not a behaviour bbolt has)
+            if r["be"] != "bolt":
+                return True
+            for a in (0, 1):
+                b = 1 - a
+                if r["progs"][a][0] in ("Find", "Count") and r["progs"][b][0] not in ("Find", "Count") \
+                        and r["t0"][a] < r["t0"][b] and r["t1"][b] < r["t1"][a]:
+                    return False
+            return True
+        recs = [r for r in recs if forceable(r)]
+        concurrent = [r for r in recs if not (r["t1"][0] < r["t0"][1] or r["t1"][1] < r["t0"][0])]
+        serial = [r for r in recs if r not in concurrent] if n >= len(recs) else []
+        pick = concurrent if n >= len(concurrent) else rng.sample(concurrent, n)
+        pick = pick + serial
+        spath = os.path.join(ctx.work, "sched-%s.json" % st["name"])
+        with open(spath, "w") as f:
+            json.dump(pick, f)
+        args += ["-sched", spath]
+        ctx.log("sched: %d model behaviours (%d with overlapping transactions), %d replayed" % (len(recs), len(concurrent), len(pick)))
+        ctx.extra.setdefault("model_behaviours", {})[st["name"]] = {"terminal_states": len(recs), "concurrent": len(concurrent), "replayed": len(pick)}
     msg = run_driver(ctx, args)
     ctx.log(msg.strip().splitlines()[-1])
     with open(stats) as f:
         sj = json.load(f)
     for k, v in sj.get("outcomes", {}).items():
         ctx.outcomes[k] = ctx.outcomes.get(k, 0) + v
+    if st.get("sched"):
+        oc = sj.get("outcomes", {})
+        if oc.get("sched/stuck", 0) > max(2, oc.get("sched/replayed", 0) // 50):
+            raise Inconclusive("%d scheduled replays got stuck" % oc.get("sched/stuck", 0))
+        if oc.get("sched/replayed", 0) == 0:
+            raise Inconclusive("no scheduled replay completed")
+        ctx.log("sched: replayed=%d model-agrees=%d model-drift=%d (advisory) stuck=%d extra-transactions=%d" % (
+            oc.get("sched/replayed", 0), oc.get("sched/model-agrees", 0), oc.get("sched/model-drift", 0),
+            oc.get("sched/stuck", 0), oc.get("sched/extra-transactions", 0)))
     hs = split_histories(out)
     ctx.traces += len(hs)
     ctx.events += sum(len(h) for h in hs)
@@ -805,7 +879,7 @@ def stage_lin(ctx, st):
         if len(ctx.violations) >= MAX_REPORTS:
             ctx.extra["further_rejections_not_reported"] = ctx.extra.get("further_rejections_not_reported", 0) + 1
             continue
-        rdir = os.path.join(ctx.root, "replays", ctx.prop)
+        rdir = os.path.join(os.environ.get("VERIF_REPLAY_DIR") or os.path.join(ctx.root, "replays"), ctx.prop)
         os.makedirs(rdir, exist_ok=True)
         path = os.path.join(rdir, "%s-seed%d-%d.json" % (st["name"], ctx.seed, len(ctx.violations)))
         stuck = json.loads(info["history"][min(info["line"], len(info["history"])) - 1])
@@ -851,7 +925,7 @@ def stage_race(ctx, st):
     ctx.evaluations += n
     ctx.stage_log.append({"stage": st["name"], "kind": "race detector", "histories": n, "reports": len(reports)})
     if clover:
-        rdir = os.path.join(ctx.root, "replays", ctx.prop)
+        rdir = os.path.join(os.environ.get("VERIF_REPLAY_DIR") or os.path.join(ctx.root, "replays"), ctx.prop)
         os.makedirs(rdir, exist_ok=True)
         path = os.path.join(rdir, "race-seed%d.json" % ctx.seed)
         with open(path, "w") as f:
